@@ -381,7 +381,11 @@ theorem evalImpl_noReq (rec : Rec) (h : RecNoReq rec) (root : Node) (w : World) 
       split
       · intro he; cases he
       · split
-        · intro he; cases he
+        · split
+          · cases hr : evalItems rec true path cs st with
+            | error e => intro he; exact hI true ps (by rw [hr]; simpa using he)
+            | ok r => intro he; cases he
+          · intro he; cases he
         · cases hr : evalItems rec true path cs st with
           | error e => intro he; exact hI true ps (by rw [hr]; simpa using he)
           | ok r =>
@@ -393,7 +397,11 @@ theorem evalImpl_noReq (rec : Rec) (h : RecNoReq rec) (root : Node) (w : World) 
       split
       · intro he; cases he
       · split
-        · intro he; cases he
+        · split
+          · cases hr : evalItems rec true path cs st with
+            | error e => intro he; exact hI true ps (by rw [hr]; simpa using he)
+            | ok r => intro he; cases he
+          · intro he; cases he
         · cases hr : evalItems rec true path cs st with
           | error e => intro he; exact hI true ps (by rw [hr]; simpa using he)
           | ok r =>
